@@ -206,7 +206,7 @@ def oracle(sc, res):
             q0 = (qs if isinstance(qs, list) else [qs])[0]
             want = _text(normalize(q.encode() + b"\n" + q0.encode()))
             shown = result.replace("\x08", "") if sc.echo_junk else result
-            if shown.lstrip(" \t") != want:
+            if shown != want:
                 problems.append(f"interactive session ended by a complete pattern: result {result[:100]!r} != {want[:100]!r}")
             if b"SHOULD-NOT-BE-SENT" in b"".join(res.writes):
                 problems.append("an input was sent after the interaction complete pattern had been seen")
@@ -224,7 +224,7 @@ def oracle(sc, res):
             if shown != _text(normalize(transcript)):
                 before = res.unread_before[k].replace(b"\r", b"")
                 if before and shown == _text(normalize(b"X" + before + transcript)[1:].lstrip(b"\n")):
-                    problems.append("F23")      # known: interactive result starts with the residue left unread by the previous operation
+                    problems.append("F23")      # interactive result starts with the residue left unread by the previous operation (repaired by fix 4c94c83)
                 else:
                     problems.append(f"send_interactive result {result[:100]!r} != transcript {normalize(transcript)[:100]!r}")
     if res.unread.strip(HWS):
@@ -307,13 +307,17 @@ def run(tier, seed):
     if tier == "thorough":
         ck.leanchecker("ScrapliProps.C01")
     for f in ck.findings:
-        if f.get("status") == "open" and f["id"] == "F23":
+        if f["id"] == "F23" and f.get("witness"):
             wsc = Scenario.from_dict(f["witness"])
             wp = oracle(wsc, run_real(wsc))
-            if wp and all(p == "F23" for p in wp):
+            ck.case(("witness", "F23"), nontrivial=True, tags=("finding-witness",))
+            if f.get("status") == "open" and wp and all(p == "F23" for p in wp):
                 ck.known_finding("F23", f["what"])
             elif wp:
-                ck.violation({"scenario": wsc.describe(), "problems": wp[:5]}, "stored witness of F23 now fails differently: " + wp[0])
+                # an open finding that fails differently, or a fixed one that is back: a violation like any other
+                what = ("interactive result starts with the blanks the previous operation left unread (F23, repaired by 4c94c83, is back)"
+                        if all(p == "F23" for p in wp) else "stored witness of F23 fails: " + wp[0])
+                ck.violation({"scenario": wsc.describe(), "problems": wp[:5]}, what)
     validate_regex_hypotheses(ck, tier)
     scenarios = []
     corpus = VERIF / "corpus" / "C01" / "corpus.json"
